@@ -12,6 +12,10 @@ and `skip_task` of `lemoncheesecake.task` by recording wrappers:
   receive t       after completed_tasks_queue.get() returned            (main thread)
   interrupt       when context.enable_task_abort() is called
 
+Run-level extensions (used by harness/run/observe.py, off by default): `rec.thread_namer` adds the worker
+to `start` records, `rec.verbose` adds the skip reason to `mode` records, `rec.rec` returns the index
+of the appended record.
+
 All records go into one list under one lock, so the list is a global linearisation.
 
 Gates: code run by tasks may call `rec.gate(key)`; it blocks until the controller releases it.  The
@@ -19,7 +23,10 @@ controller waits for quiescence (every in-flight task is blocked at a gate or no
 completion queue is drained and the main thread waits in `get`) and then releases one waiter chosen by
 the strategy ("fifo" | "lifo" | "random" | "off").  Interrupts are injected by raising
 KeyboardInterrupt in the main thread at a chosen point (`interrupt_at = ("get", k)`: instead of the
-k-th blocking get; `("apply", k)`: inside the k-th apply_async, before the task is handed to the pool).
+k-th blocking get; `("apply", k)`: inside the k-th apply_async, before the task is handed to the pool;
+`("quiescent", k)`: at the k-th quiescent point found by the gate controller — every in-flight task is held at
+a gate and the main thread waits in `get` — the controller wakes the main thread up with a KeyboardInterrupt
+instead of releasing a waiter: the interrupt then hits a chosen, stable set of in-flight tasks).
 """
 import queue as _queue
 import threading
@@ -31,6 +38,9 @@ import lemoncheesecake.task as T
 
 class HangDetected(BaseException):
     """The main loop waits for a completion while nothing is in flight: it would wait forever."""
+
+
+_INTERRUPT = object()      # sentinel put on the completion queue by the controller: `get` raises KeyboardInterrupt
 
 
 class Recorder:
@@ -58,8 +68,13 @@ class Recorder:
         self.watchdog_fired = False
         self.released = []
         self.interrupted = False
+        self.quiescent_points = 0
+        self._queue = None         # the live RecQueue (for the controller's interrupt injection)
         self._local = threading.local()
         self._ctl = None
+        # run-level extensions (harness/run/observe.py); the defaults keep the sched-level record shapes
+        self.thread_namer = None   # callable -> small int of the current thread: `start` records become ["start", t, worker]
+        self.verbose = False       # `mode` records carry the skip reason: ["mode", t, "run"|"skip", reason|None]
 
     # ---- ids -------------------------------------------------------------------------------
     def tid(self, task):
@@ -72,9 +87,23 @@ class Recorder:
             return k
 
     def rec(self, *item):
+        """append one record; returns its index in the trace"""
         with self.cv:
             self.trace.append(list(item))
             self.cv.notify_all()
+            return len(self.trace) - 1
+
+    def _start(self, k):
+        if self.thread_namer is not None:
+            self.rec("start", k, self.thread_namer())
+        else:
+            self.rec("start", k)
+
+    def _mode(self, k, mode, reason=None):
+        if self.verbose:
+            self.rec("mode", k, mode, reason)
+        else:
+            self.rec("mode", k, mode)
 
     # ---- gates -----------------------------------------------------------------------------
     def gate(self, key):
@@ -100,6 +129,7 @@ class Recorder:
     def _controller(self):
         last_progress = time.time()
         last_len = -1
+        await_main = None
         while True:
             with self.cv:
                 if self.done and not self.waiters:
@@ -119,6 +149,26 @@ class Recorder:
                         self.cv.wait(self.settle)
                         if not self._quiescent():
                             continue
+                    if await_main is not None:
+                        # an interrupt was injected: keep every waiter held until the main thread has handled it
+                        # (it is back in `get`, after skip_all_tasks dispatched the remaining tasks) — at most 2 s
+                        if (self.gets > await_main[0] and self.main_in_get) or time.time() > await_main[1]:
+                            await_main = None
+                        else:
+                            self.cv.wait(0.005)
+                        continue
+                    if (self.interrupt_at and self.interrupt_at[0] == "quiescent" and not self.interrupted
+                            and self.quiescent_points + 1 >= self.interrupt_at[1] and self._queue is not None):
+                        if not self.main_in_get:
+                            self.cv.wait(0.005)     # the dispatcher is still dispatching: it blocks in `get` next
+                            continue
+                        self.quiescent_points += 1
+                        self.interrupted = True
+                        await_main = (self.gets, time.time() + 2.0)
+                        self._queue._q.put(_INTERRUPT)
+                        last_progress = time.time()
+                        continue
+                    self.quiescent_points += 1
                     ws = self.waiters
                     if self.strategy == "fifo":
                         i = 0
@@ -182,6 +232,7 @@ def patched(rec):
     class RecQueue:
         def __init__(self):
             self._q = OrigQueue()
+            rec._queue = self
 
         def put(self, task):
             k = rec.tid(task)
@@ -202,6 +253,11 @@ def patched(rec):
             while True:
                 try:
                     task = self._q.get(timeout=0.25)
+                    if task is _INTERRUPT:
+                        with rec.cv:
+                            rec.main_in_get = False
+                            rec.cv.notify_all()
+                        raise KeyboardInterrupt()
                     break
                 except _queue.Empty:
                     with rec.cv:
@@ -217,7 +273,7 @@ def patched(rec):
     def handle_task(task, context, q):
         k = rec.tid(task)
         rec._local.in_handle = k
-        rec.rec("start", k)
+        rec._start(k)
         try:
             return orig_handle(task, context, q)
         finally:
@@ -226,14 +282,14 @@ def patched(rec):
     def skip_task(task, context, q, reason=""):
         k = rec.tid(task)
         if getattr(rec._local, "in_handle", None) == k:
-            rec.rec("mode", k, "skip")
+            rec._mode(k, "skip", reason)
         else:
-            rec.rec("start", k)
-            rec.rec("mode", k, "skip")
+            rec._start(k)
+            rec._mode(k, "skip", reason)
         return orig_skip(task, context, q, reason)
 
     def run_task(task, context, q):
-        rec.rec("mode", rec.tid(task), "run")
+        rec._mode(rec.tid(task), "run")
         return orig_run(task, context, q)
 
     T.Pool, T.Queue, T.handle_task, T.skip_task, T.run_task = RecPool, RecQueue, handle_task, skip_task, run_task
